@@ -215,6 +215,26 @@ class Interp:
                         and len(uses.get(nm, [])) == len(muts) + len(inits) + len(iters) + len(_pure_reads(fn, nm)):
                     self.append_only.add(nm)
         from . import sym as _sym
+        _sym.MODULE_DEFS.clear()
+        _sym.METHOD_NAMES.clear()
+        _sym.DATA_ATTR_NAMES.clear()
+        for q, nodes in self.mod.defs.items():
+            if any(isinstance(x, (ast.FunctionDef, ast.AsyncFunctionDef, ast.ClassDef)) for x in nodes) and not all(
+                    isinstance(x, ast.FunctionDef) and any(ast.unparse(d) in ("property", "functools.cached_property", "cached_property") for d in x.decorator_list) for x in nodes):
+                _sym.MODULE_DEFS.add(q)
+                if "." in q and any(isinstance(x, (ast.FunctionDef, ast.AsyncFunctionDef)) for x in nodes):
+                    _sym.METHOD_NAMES.add(q.rsplit(".", 1)[-1])
+        for n_ in ast.walk(self.mod.tree):
+            if isinstance(n_, ast.Attribute) and isinstance(n_.ctx, ast.Store):
+                _sym.DATA_ATTR_NAMES.add(n_.attr)
+            elif isinstance(n_, ast.ClassDef):
+                for st_ in n_.body:
+                    if isinstance(st_, ast.AnnAssign) and isinstance(st_.target, ast.Name):
+                        _sym.DATA_ATTR_NAMES.add(st_.target.id)
+                    elif isinstance(st_, ast.Assign):
+                        _sym.DATA_ATTR_NAMES |= {t_.id for t_ in st_.targets if isinstance(t_, ast.Name)}
+                    elif isinstance(st_, ast.FunctionDef) and any(ast.unparse(d) in ("property", "functools.cached_property", "cached_property") for d in st_.decorator_list):
+                        _sym.DATA_ATTR_NAMES.add(st_.name)
         _sym.NON_OPTIONAL_RETURNS.clear()
         for q, nodes in self.mod.defs.items():
             for x in nodes:
